@@ -437,62 +437,71 @@ class Device(nfc.clf.device.Device):
                         brty, atr_res=target.atr_res, atr_req=data[1:])
 
             if target and target.atr_req:
-                target.atr_res = atr_res
-                log.debug("rcvd ATR_REQ %s", hexlify(target.atr_req).decode())
-                log.debug("send ATR_RES %s", hexlify(target.atr_res).decode())
-                data = bytearray([len(atr_res) + 1]) + atr_res
-                if brty == '106A':
-                    data.insert(0, 0xF0)
-                self._send_data(brty, data, addr)
-                brty, data, addr = self._recv_data(wait, brty)
                 try:
-                    if brty == '106A':
-                        assert data.pop(0) == 0xF0
-                    assert len(data) == data.pop(0)
-                except AssertionError:
+                    return self._listen_dep_activated(
+                        target, atr_res, brty, addr, wait)
+                except (nfc.clf.CommunicationError, IndexError) as error:
+                    # broken or incomplete activation sequence
+                    log.debug(error)
                     return None
-                if data.startswith(b'\xD4\x04'):
-                    target.psl_req = data[:]
-                    target.psl_res = b'\xD5\x05' + target.psl_req[2:3]
-                    log.debug("rcvd PSL_REQ %s",
-                              hexlify(target.psl_req).decode())
-                    log.debug("send PSL_RES %s",
-                              hexlify(target.psl_res).decode())
-                    data = bytearray([len(target.psl_res) + 1]) \
-                        + target.psl_res
-                    if brty == '106A':
-                        data.insert(0, 0xF0)
-                    self._send_data(brty, data, addr)
-                    brty = ('106A', '212F', '424F')[target.psl_req[3] >> 3 & 7]
-                    target.brty, data, addr = self._recv_data(wait, brty)
-                    try:
-                        if brty == '106A':
-                            assert data.pop(0) == 0xF0
-                        assert len(data) == data.pop(0)
-                    except AssertionError:
-                        return None
-                if data.startswith(b'\xD4\x08'):
-                    log.debug("rcvd DSL_REQ %s", hexlify(data).decode())
-                    data = b'\xD5\x09' + data[2:3]
-                    log.debug("send DSL_RES %s", hexlify(data).decode())
-                    data = bytearray([len(data) + 1]) + data
-                    if brty == '106A':
-                        data.insert(0, 0xF0)
-                    self._send_data(brty, data, addr)
-                    return None
-                if data.startswith(b'\xD4\x0A'):
-                    log.debug("rcvd RLS_REQ %s", hexlify(data).decode())
-                    data = b'\xD5\x0B' + data[2:3]
-                    log.debug("send RLS_RES %s", hexlify(data).decode())
-                    data = bytearray([len(data) + 1]) + data
-                    if brty == '106A':
-                        data.insert(0, 0xF0)
-                    self._send_data(brty, data, addr)
-                    return None
-                if data.startswith(b'\xD4\x06'):
-                    target.dep_req = data[:]
-                    return target
+
+    def _listen_dep_activated(self, target, atr_res, brty, addr, wait):
+        target.atr_res = atr_res
+        log.debug("rcvd ATR_REQ %s", hexlify(target.atr_req).decode())
+        log.debug("send ATR_RES %s", hexlify(target.atr_res).decode())
+        data = bytearray([len(atr_res) + 1]) + atr_res
+        if brty == '106A':
+            data.insert(0, 0xF0)
+        self._send_data(brty, data, addr)
+        brty, data, addr = self._recv_data(wait, brty)
+        try:
+            if brty == '106A':
+                assert data.pop(0) == 0xF0
+            assert len(data) == data.pop(0)
+        except AssertionError:
+            return None
+        if data.startswith(b'\xD4\x04'):
+            target.psl_req = data[:]
+            target.psl_res = b'\xD5\x05' + target.psl_req[2:3]
+            log.debug("rcvd PSL_REQ %s",
+                      hexlify(target.psl_req).decode())
+            log.debug("send PSL_RES %s",
+                      hexlify(target.psl_res).decode())
+            data = bytearray([len(target.psl_res) + 1]) \
+                + target.psl_res
+            if brty == '106A':
+                data.insert(0, 0xF0)
+            self._send_data(brty, data, addr)
+            brty = ('106A', '212F', '424F')[target.psl_req[3] >> 3 & 7]
+            target.brty, data, addr = self._recv_data(wait, brty)
+            try:
+                if brty == '106A':
+                    assert data.pop(0) == 0xF0
+                assert len(data) == data.pop(0)
+            except AssertionError:
                 return None
+        if data.startswith(b'\xD4\x08'):
+            log.debug("rcvd DSL_REQ %s", hexlify(data).decode())
+            data = b'\xD5\x09' + data[2:3]
+            log.debug("send DSL_RES %s", hexlify(data).decode())
+            data = bytearray([len(data) + 1]) + data
+            if brty == '106A':
+                data.insert(0, 0xF0)
+            self._send_data(brty, data, addr)
+            return None
+        if data.startswith(b'\xD4\x0A'):
+            log.debug("rcvd RLS_REQ %s", hexlify(data).decode())
+            data = b'\xD5\x0B' + data[2:3]
+            log.debug("send RLS_RES %s", hexlify(data).decode())
+            data = bytearray([len(data) + 1]) + data
+            if brty == '106A':
+                data.insert(0, 0xF0)
+            self._send_data(brty, data, addr)
+            return None
+        if data.startswith(b'\xD4\x06'):
+            target.dep_req = data[:]
+            return target
+        return None
 
     def send_cmd_recv_rsp(self, target, data, timeout):
         # send data, data should normally not be None for the Initiator
